@@ -405,3 +405,16 @@ package keeper
 //@   ensures #f2: decMul(amt, growth(rate, idx, s1) + growth(rate, idx, s2)) <= decMul(amt, growth(rate, idx, s1 + s2) + ONE + 6) by #q, #g
 //@   ensures #f3: decMul(amt, growth(rate, idx, s1 + s2) + ONE + 6) <= decMul(amt, growth(rate, idx, s1 + s2)) + amt + 6 * (amt / ONE) + 7
 //@   ensures #c18-two-intervals: indexAccrual(amt, rate, idx, s1) + indexAccrual(amt, rate, idx, s2) <= indexAccrual(amt, rate, idx, s1 + s2) + 6 * (amt / ONE) + 8 by #f1, #f2, #f3
+
+// Adding collateral to a borrow position (C12, C14): only the owner of the lend position behind the borrow may do it,
+// never on a liquidated position, and not while the circuit breaker of the position's app is on.
+//@ func (k Keeper) DepositBorrowAsset
+//@   property C12, C14
+//@   prune
+//@   let b0 = k.GetBorrow(ctx, borrowID).0
+//@   let bf0 = k.GetBorrow(ctx, borrowID).1
+//@   let l0 = k.GetLend(ctx, b0.LendingID).0
+//@   let lf0 = k.GetLend(ctx, b0.LendingID).1
+//@   requires #borrow-keyed: bf0 ==> b0.ID == borrowID
+//@   ensures [C12] #c12-owner: result == nil ==> bf0 && lf0 && addr == l0.Owner && !b0.IsLiquidated
+//@   fails_if [C14] #c14-breaker: bf0 && lf0 && breakerOn(k, ctx, l0.AppID)
